@@ -19,6 +19,11 @@ Lemma sites_ok :
   head_check_first = true /\ hasDefaultCase_only_false = true.
 Proof. repeat split; vm_compute; reflexivity. Qed.
 
+(* the failure signal of goroutines is installed after the context (generated
+   from Program.Run and Template.Run) *)
+Lemma goroutines_signal_after_context : goroutines_after_context = true.
+Proof. vm_compute; reflexivity. Qed.
+
 Lemma all_guarded : forall b, op_guarded b = true.
 Proof. destruct b; vm_compute; reflexivity. Qed.
 
